@@ -186,6 +186,14 @@ class ServerCreate(Unit):
                                  z3.Implies(other != ident, z3.And(z3.Select(self.rc.arr(s), other) == z3.Select(self.rc0, other), z3.Select(self.objs.arr(s), other) == z3.Select(self.objs0, other))),
                                  z3.BoolVal(len(mk) == 1), (z3.And(mk[0][1] == self.typeid, mk[0][2] == self.proxytype, mk[0][3] == ident, box(ex, p) == proxy_of(self.typeid, ident)) if len(mk) == 1 else z3.BoolVal(False)),
                                  self.mutex.held(s) == 0, s.ghost['own'] == 1))
+                # [C14] the proxy is made for THIS object's methods: its public methods, plus -- when the registration names them -- the methods of method_to_typeid
+                if len(mk) == 1:
+                    want = public_methods(obj)
+                    mtt = getattr(self, 'mtt', None)
+                    if mtt is not None:
+                        want = V.lst(z3.Concat(z3.Function('list_elems', Val, V.SeqV)(want), z3.Function('list_elems', Val, V.SeqV)(mtt)))
+                    ex.oblige(s, 'exit: [C14] the proxy is made for this object\'s own public methods' + (' plus the methods named by method_to_typeid' if mtt is not None else '') + ' (and the same set is recorded with the hosted object)',
+                              z3.And(mk[0][4] == tupleof(want), V.items(entry)[1] == setof(want)))
             else:
                 ex.oblige(s, 'exit(raise): no count changed for good (the callable / the proxy constructor failed, or bad arguments): this call holds no reference, every other ident untouched; mutex released',
                           z3.And(z3.Implies(other != ident, z3.And(z3.Select(self.rc.arr(s), other) == z3.Select(self.rc0, other), z3.Select(self.objs.arr(s), other) == z3.Select(self.objs0, other))),
@@ -802,7 +810,9 @@ class ProxyReduce(ProxyIncref):
                       z3.And(z3.BoolVal(len(decs) == 0 and incs[0][2] == ('direct' if self.in_server else 'dispatch')), incs[0][1] == self.tid, box(ex, p.items[0]) == z3.Const('RebuildProxy', Val),
                              z3.BoolVal(unbox_handle(ex, inner[1]) is self.token), box(ex, inner[2]) == z3.Const('serializer', Val),
                              box(ex, inner[0]) == z3.If(self.isauto, z3.Const('AutoProxy', Val), z3.Const('type(self)', Val)),
-                             z3.BoolVal(isinstance(kwds, DictVal) and 'incref' not in kwds.items and kwds.pack is None)))
+                             z3.BoolVal(isinstance(kwds, DictVal) and 'incref' not in kwds.items and kwds.pack is None),
+                             # an AutoProxy is rebuilt from its method list: the pickle carries this proxy's own (AutoProxy's fall-back -- asking the server again -- is declared unreachable)
+                             z3.Implies(self.isauto, box(ex, kwds.items['exposed']) == z3.Const('exposed', Val) if isinstance(kwds, DictVal) and 'exposed' in kwds.items else z3.BoolVal(False))))
 
 
 class ProxyReduceInServer(ProxyReduce):
